@@ -130,16 +130,37 @@ fn eval_g(g: &G, row: &[Option<bool>; 4]) -> V3 {
     }
 }
 
+/// Builds the group through one of the equivalent API routes (chosen by the per-case route PRNG):
+/// the polarity is reached by one or three `not()` calls (zero or two for a plain group), applied
+/// before or after the members are added; members go in through `add` or `add_option(Some(..))`.
 fn build_g(g: &G) -> Condition {
+    use crate::apply::route;
     let mut c = if g.any { Condition::any() } else { Condition::all() };
+    let flips = (if g.negate { 1 } else { 0 }) + if route(4) == 0 { 2 } else { 0 };
+    let early = if route(3) == 0 { route(flips + 1) } else { 0 };
+    for _ in 0..early {
+        c = c.not();
+    }
     for m in &g.members {
         c = match m {
-            M::Leaf { atom, form } => c.add(leaf_expr(*atom, *form)),
-            M::Group(x) => c.add(build_g(x)),
+            M::Leaf { atom, form } => {
+                if route(5) == 0 {
+                    c.add_option(Some(leaf_expr(*atom, *form)))
+                } else {
+                    c.add(leaf_expr(*atom, *form))
+                }
+            }
+            M::Group(x) => {
+                if route(5) == 0 {
+                    c.add_option(Some(build_g(x)))
+                } else {
+                    c.add(build_g(x))
+                }
+            }
             M::Absent => c.add_option(None::<SimpleExpr>),
         };
     }
-    if g.negate {
+    for _ in early..flips {
         c = c.not();
     }
     c
@@ -434,6 +455,7 @@ fn keyword_at_depth0(sql: &str, kw: &str) -> bool {
 
 pub fn check_case(ctx: &Ctx, rep: &mut Report, fx: &Fix, n: u64, cx: Ctxt, calls: &[Call], label: &str) {
     rep.eval();
+    crate::apply::set_route_seed(ctx.seed ^ n.wrapping_mul(0x9E3779B97F4A7C15) ^ vcore::prng::hash_str(label));
     // AND-chain context only takes leaf calls
     let calls_eff: Vec<Call> = if cx == Ctxt::AndChain {
         calls.iter().filter(|c| !matches!(c, Call::CondWhere(_))).cloned().collect()
